@@ -32,26 +32,27 @@ type c07Block struct {
 
 func c07Program(spec string) (string, []c07Block) {
 	var b strings.Builder
-	b.WriteString("gauge ts\ncounter n\n")
+	// fl is assigned the same value on every matching line: its datum still carries each line's instant
+	b.WriteString("gauge ts\ncounter n\ngauge fl\n")
 	var blocks []c07Block
 	switch spec {
 	case "settime":
-		b.WriteString("/^(-?\\d+)$/ {\n  settime($1)\n  ts = timestamp()\n  n++\n}\n")
+		b.WriteString("/^(-?\\d+)$/ {\n  settime($1)\n  ts = timestamp()\n  n++\n  fl = 0.75\n}\n")
 	case "now":
-		b.WriteString("/./ {\n  ts = timestamp()\n  n++\n}\n")
+		b.WriteString("/./ {\n  ts = timestamp()\n  n++\n  fl = 0.75\n}\n")
 	case "settime+now":
 		// lines that set the time and lines that do not, in one program: nothing carries over
-		b.WriteString("/^(-?\\d+)$/ {\n  settime($1)\n  ts = timestamp()\n  n++\n}\n/^N/ {\n  ts = timestamp()\n  n++\n}\n")
+		b.WriteString("/^(-?\\d+)$/ {\n  settime($1)\n  ts = timestamp()\n  n++\n  fl = 0.75\n}\n/^N/ {\n  ts = timestamp()\n  n++\n  fl = 0.75\n}\n")
 	default:
 		for _, part := range strings.Split(spec, "|") {
 			if part == "N" {
 				// a block that neither parses nor sets a time: processing time, whatever earlier lines did
-				b.WriteString("/^N / {\n  ts = timestamp()\n  n++\n}\n")
+				b.WriteString("/^N / {\n  ts = timestamp()\n  n++\n  fl = 0.75\n}\n")
 				continue
 			}
 			kv := strings.SplitN(part, "=", 2)
 			blocks = append(blocks, c07Block{kv[0], kv[1]})
-			fmt.Fprintf(&b, "/^%s (.+)$/ {\n  strptime($1, \"%s\")\n  ts = timestamp()\n  n++\n}\n", kv[0], kv[1])
+			fmt.Fprintf(&b, "/^%s (.+)$/ {\n  strptime($1, \"%s\")\n  ts = timestamp()\n  n++\n  fl = 0.75\n}\n", kv[0], kv[1])
 		}
 	}
 	return b.String(), blocks
@@ -75,6 +76,17 @@ func intDatum(m *metrics.Metric) (val int64, tns int64, ok bool) {
 		return 0, 0, false
 	}
 	return d.Get(), atomic.LoadInt64(&d.Time), true
+}
+
+func floatStamp(m *metrics.Metric) (int64, bool) {
+	if m == nil || len(m.LabelValues) == 0 {
+		return 0, false
+	}
+	d, isF := m.LabelValues[0].Value.(*datum.Float)
+	if !isF {
+		return 0, false
+	}
+	return atomic.LoadInt64(&d.Time), true
 }
 
 func c07Run(r *runCtx, id string, f []string) {
@@ -187,11 +199,18 @@ func c07Run(r *runCtx, id string, f []string) {
 			}
 		case w.now:
 			lo, hi := t0.Unix(), t1.Unix()
+			flt, flok := floatStamp(metricByName(u.obj.Metrics, "fl"))
+			if flok && (flt < t0.UnixNano() || flt > t1.UnixNano()) {
+				bad = append(bad, fmt.Sprintf("line %q: the float gauge assigned on this line carries the stamp %d, outside the processing time [%d,%d]", l, flt, t0.UnixNano(), t1.UnixNano()))
+			}
 			if cls != "ok" || ts1 < lo || ts1 > hi || n1 != n0+1 || tst1 < t0.UnixNano() || tst1 > t1.UnixNano() || nt1 < t0.UnixNano() || nt1 > t1.UnixNano() {
 				bad = append(bad, fmt.Sprintf("line %q: expected processing time in [%d,%d]; timestamp()=%d, datum stamps %d/%d, outcome %s", l, lo, hi, ts1, tst1, nt1, cls))
 			}
 		default:
 			wantSec, wantNs := w.instant.Unix(), w.instant.UnixNano()
+			if flt, flok := floatStamp(metricByName(u.obj.Metrics, "fl")); flok && flt != wantNs {
+				bad = append(bad, fmt.Sprintf("line %q: the float gauge assigned on this line (same value as before) carries the stamp %d, the line's instant is %d", l, flt, wantNs))
+			}
 			if cls != "ok" || ts1 != wantSec || n1 != n0+1 || tst1 != wantNs || nt1 != wantNs {
 				bad = append(bad, fmt.Sprintf("line %q: the reference instant is %s (unix %d, nanos %d); timestamp()=%d, datum stamps ts=%d n=%d, n %d->%d, outcome %s (%s)", l, w.instant.Format(time.RFC3339Nano), wantSec, wantNs, ts1, tst1, nt1, n0, n1, cls, firstLine(raw)))
 			}
